@@ -215,6 +215,10 @@ def e2e_cases(shard: dict, tier: str):
             for ics in (None, 1):
                 for ocs in (vrl, 2 ** 16):
                     yield {'e2e': name, 'vrl': vrl, 'ics': ics, 'ocs': ocs}
+        # the label is re-configured through its public attributes after the file object was created
+        for other in (20, 64, 8192, 16384):
+            if other != vrl:
+                yield {'e2e': 'two-frames', 'vrl': vrl, 'ics': None, 'ocs': 2 ** 16, 'created_with': other}
 
 
 def e2e_shards(tier: str) -> list[dict]:
@@ -249,6 +253,10 @@ def run_e2e(case: dict) -> dict:
     from mc import spec as S
     install_segment_tap()
     sp = e2e_spec(case['e2e'], case['vrl'])
+    if case.get('created_with'):
+        sp['sul'] = {'max_record_length': case['created_with'], 'set_identifier': 'FIRST-ID', 'sul_sequence_number': 7}
+        sp['ops'].append({'op': 'sul', 'kw': {'max_record_length': case['vrl'], 'set_identifier': 'E2E-SET',
+                                               'sequence_number': 1}})
     sp['write'] = {'output_chunk_size': case['ocs']}
     if case['ics']:
         sp['write']['input_chunk_size'] = case['ics']
